@@ -328,4 +328,20 @@ PROPS = {
         trusted_base=[],
         technique="bounded run-time stand-in (generated target/link documents) - no contract discharged yet",
     ),
+    "C11": dict(
+        level="exploration",
+        contracts=[],
+        harness=True,
+        explanation=(
+            "BOUNDED ONLY so far (render_footnote_reference and the Sort/Collect/Unreferenced transforms are not yet under "
+            "contract): all reference sequences up to length 3/4 over three labels and random reference/definition sequences "
+            "(numeric and named labels, duplicates, unreferenced, with and without sorting / transition / heading / trailing "
+            "content) against a reference model: numbering, reference -> definition refid and shown number, back-references, "
+            "pairwise distinct labels, collection at the end in ascending order, exactly one transition when configured, "
+            "definitions stay in place when sorting is off, one warning per duplicate / unreferenced definition, no text lost."
+        ),
+        assumptions=["docutils Footnotes transform (numbering of document.autofootnotes in list order, refid/backref linking)"],
+        trusted_base=[],
+        technique="bounded run-time stand-in (reference/definition sequences vs a numbering model) - no contract discharged yet",
+    ),
 }
